@@ -19,6 +19,14 @@ namespace w
 #endif
 #define COMMA ,
 
+   // spelling-independent form: the name of wrap< T > is "w::wrap<" + the name of T + ">" (g++ writes " >" after a template argument list)
+   template< typename T > struct wrap {};
+   constexpr bool comp( const std::string_view whole, const std::string_view part )
+   {
+      return ( whole.size() > 8 + part.size() ) && ( whole.substr( 0, 8 ) == "w::wrap<" ) && ( whole.substr( 8, part.size() ) == part ) && ( ( whole.substr( 8 + part.size() ) == ">" ) || ( whole.substr( 8 + part.size() ) == " >" ) );
+   }
+#define WC( Name, Type ) static_assert( comp( demangle< wrap< Type > >(), demangle< Type >() ), "WITNESS " Name );
+
    W( "int", int, "int", "int" )
    W( "user-rule", my_rule, "w::my_rule", "w::my_rule" )
    W( "one-semicolon", one< ';' >, "tao::pegtl::one<';'>", "tao::pegtl::ascii::one<';'>" )
@@ -27,4 +35,11 @@ namespace w
    W( "seq-brackets", seq< one< '>' > COMMA one< ']' > >, "tao::pegtl::seq<tao::pegtl::one<'>'>, tao::pegtl::one<']'>>", "tao::pegtl::seq<tao::pegtl::ascii::one<'>'>, tao::pegtl::ascii::one<']'> >" )
    W( "must-semicolon", internal::must< one< ';' > >, "tao::pegtl::internal::must<tao::pegtl::one<';'>>", "tao::pegtl::internal::must<tao::pegtl::ascii::one<';'> >" )
    W( "nested-equals", seq< string< '=' COMMA '=' > COMMA my_rule >, "tao::pegtl::seq<tao::pegtl::string<'=', '='>, w::my_rule>", "tao::pegtl::seq<tao::pegtl::ascii::string<'=', '='>, w::my_rule>" )
+   WC( "comp-int", int )
+   WC( "comp-user-rule", my_rule )
+   WC( "comp-one-semicolon", one< ';' > )
+   WC( "comp-one-equals-semicolon", one< '=' COMMA ';' > )
+   WC( "comp-string-semicolons", string< ';' COMMA ';' > )
+   WC( "comp-seq-brackets", seq< one< '>' > COMMA one< ']' > > )
+   WC( "comp-must-semicolon", internal::must< one< ';' > > )
 }  // namespace w
